@@ -3,6 +3,12 @@ Line-protocol engine `writebatch` (C26).
 op:
   wb <scratch> <isV4> <gso> <maxSeg> <dsts> <pkts> <script>
   wbq …same arguments…   the batch is queued in an overlay/batch.SendBatch (Reserve, Commit) and sent by Flush
+  reset <scratch> <isV4> <gso> <maxSeg> <dsts>   a fresh writer that the following `send` ops share: the GSO flag
+                                                  and the control side of the mmsghdr slots persist between them
+  send <pkts> <script>                           one WriteBatch on that writer
+  smsrc                                          skeleton of the retry loop of batchWriter.sendmmsg, from the source
+  sys badfd|loop <scratch> <gso> <maxSeg> <len,…> WriteBatch with the production sendmmsg on an invalid descriptor /
+                                                  through loopback; answer `w= e= g= rx=<tag>:<len>,…` (what arrived)
      dsts   : `<addrhex>:<port>;…`            destination table
      pkts   : `<len>@<dstIndex>,…` | `-`       the batch (bufs[k] has len bytes, addrs[k] = dsts[dstIndex])
      script : `<sent>:<ok|eio|other>,…` | `-`  results of the successive sendFn calls (`sent` is capped at the
@@ -15,6 +21,7 @@ answer:
 import Nebula.Driver.Common
 import Nebula.Driver.NetArgs
 import Nebula.Model.Writebatch
+import Nebula.Model.Sendmmsg
 import Nebula.Spec.Writebatch
 
 namespace Nebula.Driver.Writebatch
@@ -54,15 +61,16 @@ def parseOutcome (s : String) : Option Outcome :=
 def errStr : Err → String
   | .none => "ok" | .eio => "eio" | .other => "other"
 
-def showEntry (pk : List (Pkt Dst)) (dsts : List Dst) (e : Entry) : String :=
+def showEntry (pk : List (Pkt Dst)) (dsts : List Dst) (ec : Entry × Option Nat) : String :=
+  let e := ec.1
   let p := pk[e.start]?
   let isZero := e.cnt == 1 && (p.map (·.len)).getD 1 == 0
   (if isZero then "z" else toString e.start) ++ "+" ++ toString e.cnt ++
-  (if e.cnt ≥ 2 then "x" ++ toString e.seg else "p") ++ "@" ++
+  (match ec.2 with | some sg => "x" ++ toString sg | none => "p") ++ "@" ++
   toString ((p.map (fun p => wireIdx dsts p.dst)).getD 999999)
 
 def showCall (pk : List (Pkt Dst)) (dsts : List Dst) (c : Call) : String :=
-  s!"{c.done}+{c.ents.length}:" ++ join "/" (c.ents.map (showEntry pk dsts)) ++ s!"=>{c.out.sent},{errStr c.out.err}"
+  s!"{c.done}+{c.ents.length}:" ++ join "/" ((c.ents.zip (c.ctl ++ List.replicate c.ents.length none)).map (showEntry pk dsts)) ++ s!"=>{c.out.sent},{errStr c.out.err}"
 
 def showResult (pk : List (Pkt Dst)) (dsts : List Dst) (r : Result) : String :=
   if r.overrun then "OVERRUN" else
@@ -146,36 +154,97 @@ def tagOf (pk : List (Pkt Dst)) (isV4 : Bool) (r : Result) (gso0 : Bool) : Strin
     "wb:" ++ (if runs then "gso" else "plain") ++ (if rejects then "+reject" else "") ++
       (if partials then "+partial" else "") ++ (if skips then "+skip" else "") ++ (if chunks > 1 then "+chunks" else "")
 
-def step (s : Unit) (args : List String) (impl : String) : Unit × Out :=
+/-- the writer: configuration, `w.gsoSupported`, and the control side of its mmsghdr slots. -/
+structure W where
+  n : Nat
+  isV4 : Bool
+  maxSeg : Int
+  dsts : List Dst
+  gso : Bool
+  ctl : Ctl
+
+/-- one `WriteBatch` on writer `w`: (model answer, verdict, tag, writer afterwards) -/
+def doBatch (w : W) (pkts script impl : String) (sfx : String) : Option (Out × W) :=
+  match parseList "," (parsePkt w.dsts) pkts, parseList "," parseOutcome script with
+  | some pks, some script =>
+    let pk := pks.map (·.1)
+    let cfg : Cfg Dst := { n := w.n, maxSeg := w.maxSeg, routable := routable w.isV4 }
+    let r := writeBatch cfg (scriptKern script) pk w.gso w.ctl
+    let m := showResult pk w.dsts r
+    let inp : Spec.Writebatch.SInput :=
+      { scratch := w.n, maxSeg := w.maxSeg, maxBytes := maxGSOBytes,
+        routable := fun d => ((w.dsts[d]?).map (routable w.isV4)).getD false,
+        pkts := pks.map (fun p => (p.1.len, wireIdx w.dsts p.1.dst)) }
+    let verdict :=
+      match parseTrace impl with
+      | none => if impl.startsWith "PANIC" then "bad wb-panic " ++ impl else "bad wb-unparsable"
+      | some t =>
+        match Spec.Writebatch.check inp t with
+        | some cls => "bad " ++ cls
+        | none => "ok"
+    some ({ model := m, verdict := verdict, tag := tagOf pk w.isV4 r w.gso ++ sfx }, { w with gso := r.gso, ctl := r.ctl })
+  | _, _ => none
+
+def mkW (n v4 gso maxSeg dsts : String) : Option W :=
+  match natArg n, natArg v4, natArg gso, intArg maxSeg, parseList ";" parseAddrPort dsts with
+  | some n, some v4, some gso, some maxSeg, some dsts =>
+    some { n := n, isV4 := v4 != 0, maxSeg := maxSeg, dsts := dsts, gso := gso != 0, ctl := List.replicate n none }
+  | _, _, _, _, _ => none
+
+/-- The retry loop of `batchWriter.sendmmsg` as rendered from the repository source by the harness op `smsrc`
+(retry constant, loop header, syscall, switch cases with their statements, final return): this is what
+`Nebula.Sendmmsg.loop` models, clause by clause. -/
+def sendmmsgShape : String :=
+  "const enobufsRetries = 3|for[enobufs := 0][][]|r1,_,errno=unix.Syscall6(unix.SYS_SENDMMSG,…)|switch[]|" ++
+  "case[errno == unix.EINTR]{continue}|case[errno == unix.ENOBUFS && enobufs < enobufsRetries]{enobufs++;continue}|" ++
+  "case[errno != 0]{return int(r1), &net.OpError{Op: \"sendmmsg\", Err: errno}}|return int(r1), nil"
+
+/-- kernel function of `WriteBatch` when `sendFn` is the production wrapper over a raw kernel `sys`. -/
+def kernOfSys (sys : Nat → Nat → List Sendmmsg.Sys) (k n : Nat) : Outcome :=
+  match Sendmmsg.sendmmsg (sys k n) with
+  | .ret sent err _ => { sent := sent, err := match err with | .ok => .none | .eio => .eio | _ => .other }
+  | .spinning _ => { sent := 0, err := .other }
+
+def step (s : Option W) (args : List String) (impl : String) : Option W × Out :=
   match args with
+  | ["reset", n, v4, gso, maxSeg, dsts] =>
+    match mkW n v4 gso maxSeg dsts with
+    | some w => (some w, { model := "ok", verdict := "ok", tag := "triv:reset" })
+    | none => (none, badOp)
+  | ["smsrc"] =>
+    (s, { model := sendmmsgShape, verdict := expect "sendmmsg-loop-shape" impl sendmmsgShape, tag := "smsrc" })
+  | ["sys", mode, n, gso, maxSeg, lens] =>
+    match natArg n, natArg gso, intArg maxSeg, parseList "," String.toNat? lens with
+    | some n, some gso, some maxSeg, some lens =>
+      let pk : List (Pkt Dst) := lens.map (fun l => { len := l, dst := ({ fam := .v4, val := 0x7f000001 }, 0) })
+      let cfg : Cfg Dst := { n := n, maxSeg := maxSeg, routable := fun _ => true }
+      -- raw kernel: an invalid descriptor fails every syscall with EBADF (r1 = -1); loopback accepts everything
+      let sys : Nat → Nat → List Sendmmsg.Sys :=
+        if mode == "badfd" then fun _ _ => [⟨-1, .other⟩] else fun _ n => [⟨n, .ok⟩]
+      let r := writeBatch cfg (kernOfSys sys) pk (gso != 0) (List.replicate n none)
+      -- what the receiver must see: every accepted datagram, whole, in order (the kernel cuts an offloaded run
+      -- into gso_size pieces, which are its datagrams because all but the last have that size)
+      let rx := (sentIdxs r.calls).map (fun i => let l := (lens[i]?).getD 0; (if l == 0 then "z" else toString (i % 256)) ++ ":" ++ toString l)
+      let m := s!"w={r.written} e={boolStr r.err} g={boolStr r.gso} rx=" ++ (if rx.isEmpty then "-" else join "," rx)
+      (s, { model := m, verdict := expect "sys-kernel-delivery" impl m, tag := "sys:" ++ mode ++ (if r.calls.any (fun c => c.ctl.any (·.isSome)) then "+gso" else "") })
+    | _, _, _, _ => (s, badOp)
+  | ["send", pkts, script] =>
+    match s with
+    | some w =>
+      match doBatch w pkts script impl (if w.ctl.any (·.isSome) then "+stale" else "+seq") with
+      | some (o, w') => (some w', o)
+      | none => (s, badOp)
+    | none => (s, badOp)
   | [op, n, v4, gso, maxSeg, dsts, pkts, script] =>
     if op != "wb" && op != "wbq" then (s, badOp) else
-    match natArg n, natArg v4, natArg gso, intArg maxSeg, parseList ";" parseAddrPort dsts with
-    | some n, some v4, some gso, some maxSeg, some dsts =>
-      match parseList "," (parsePkt dsts) pkts, parseList "," parseOutcome script with
-      | some pks, some script =>
-        let isV4 := v4 != 0
-        let gso := gso != 0
-        let pk := pks.map (·.1)
-        let cfg : Cfg Dst := { n := n, maxSeg := maxSeg, routable := routable isV4 }
-        let r := writeBatch cfg (scriptKern script) pk gso
-        let m := showResult pk dsts r
-        let inp : Spec.Writebatch.SInput :=
-          { scratch := n, maxSeg := maxSeg, maxBytes := maxGSOBytes,
-            routable := fun d => ((dsts[d]?).map (routable isV4)).getD false,
-            pkts := pks.map (fun p => (p.1.len, wireIdx dsts p.1.dst)) }
-        let verdict :=
-          match parseTrace impl with
-          | none => if impl.startsWith "PANIC" then "bad wb-panic " ++ impl else "bad wb-unparsable"
-          | some t =>
-            match Spec.Writebatch.check inp t with
-            | some cls => "bad " ++ cls
-            | none => "ok"
-        (s, { model := m, verdict := verdict, tag := tagOf pk isV4 r gso ++ (if op == "wbq" then "+q" else "") })
-      | _, _ => (s, badOp)
-    | _, _, _, _, _ => (s, badOp)
+    match mkW n v4 gso maxSeg dsts with
+    | some w =>
+      match doBatch w pkts script impl (if op == "wbq" then "+q" else "") with
+      | some (o, _) => (s, o)
+      | none => (s, badOp)
+    | none => (s, badOp)
   | _ => (s, badOp)
 
-def main : IO Unit := runEngine () step
+def main : IO Unit := runEngine (none : Option W) step
 
 end Nebula.Driver.Writebatch
